@@ -127,6 +127,10 @@ impl Scaled {
         if n == 0 {
             return Ok(y);
         }
+        if n == i32::MIN || self.0 == i32::MIN {
+            // -2^31 is outside TeX's range of integers; it can't be negated below.
+            return Err(OverflowError {});
+        }
         let mut x = self;
         if n < 0 {
             n = -n;
